@@ -66,4 +66,3 @@ func withOracle(ops []string) []string {
 	return append(out, rest...)
 }
 
-func genCase(r *kit.Rand, i int, tier string) []string { return nil }
